@@ -102,7 +102,7 @@ Section WithSort.
     assert (LE : (length (filter (fun i : id => N.eqb (bucket_of itv i) k) (nodupb U))
                   <= length (filter (fun i : id => N.eqb (bucket_of itv i) k) U))%nat).
     { apply NoDup_incl_length; [apply NoDup_filter, nodupb_NoDup|].
-      intros a Ha. apply filter_In in Ha. destruct Ha as [Ia Pa]. apply nodupb_In in Ia.
+      intros a Ha. apply filter_In in Ha. destruct Ha as [Ia Pa]. apply (proj1 (nodupb_In _ _)) in Ia.
       apply filter_In; split; [exact Ia | exact Pa]. }
     assert (P : (0 < length (filter (fun i : id => N.eqb (bucket_of itv i) k) U))%nat) by lia.
     apply filter_length_pos in P. destruct P as [i [Hi E]]. apply N.eqb_eq in E. eauto.
